@@ -241,7 +241,7 @@ impl<R: Registry> VxClaimMap<R> {
     #[verifier::external_body]
     pub fn len(&self) -> (n: usize) { unimplemented!() }
     #[verifier::external_body]
-    pub fn is_empty(&self) -> (b: bool) { unimplemented!() }
+    pub fn is_empty(&self) -> (b: bool) ensures b == (forall|k: IdentifierRef<R>| !self@.dom().contains(k)) { unimplemented!() }
 }
 /// the task of this link of the stage (`self.0: &mut T`): counts how often it was run
 #[verifier::external_body]
@@ -272,6 +272,17 @@ impl<R: Registry, S> VxRest<R, S> {
 }
 /// `(&mut T, U)`
 pub struct VxLink<R: Registry, S, T>(pub VxTask<T>, pub VxRest<R, S>);
+/// the next stage, as the end of this stage sees it: records what its `run_add_ons` is handed
+impl VxNextStages {
+    pub uninterp spec fn add_on_calls<R: Registry, S>(&self) -> Seq<(IMap<IdentifierRef<R>, VxClaims<R>>, VxResClaims<S>)>;
+    #[verifier::external_body]
+    pub unsafe fn run_add_ons<R: Registry, S>(&mut self, world: SendableWorld<R, S>, borrowed_archetypes: VxClaimMap<R>, resource_claims: VxResClaims<S>) -> (r: VxHasRun)
+        ensures final(self).add_on_calls::<R, S>() == old(self).add_on_calls::<R, S>().push((borrowed_archetypes@, resource_claims)) { unimplemented!() }
+    #[verifier::external_body]
+    pub fn vx_new_has_run() -> (r: VxHasRun) { unimplemented!() }
+}
+/// `Null`: the end of a stage's task list
+pub struct VxStageEnd { pub _p: () }
 
 impl<R: Registry, Resources, T> VxLink<R, Resources, T> {
     pub fn run(&mut self, world: SendableWorld<R, Resources>, mut borrowed_archetypes: VxClaimMap<R>, resource_claims: VxResClaims<Resources>, has_run: (bool, VxHasRun), next_stage: &mut VxNextStages) -> (r: VxHasRun)
@@ -354,6 +365,24 @@ impl<R: Registry, Resources, T> VxLink<R, Resources, T> {
                         .run_add_ons(world, borrowed_archetypes, resource_claims)
                 },
             )
+        }
+    
+    }
+
+}
+
+impl VxStageEnd {
+    pub fn run<R: Registry, Resources>(&mut self, world: SendableWorld<R, Resources>, borrowed_archetypes: VxClaimMap<R>, resource_claims: VxResClaims<Resources>, _has_run: VxHasRun, next_stage: &mut VxNextStages) -> (r: VxHasRun)
+        ensures
+            final(next_stage).add_on_calls::<R, Resources>() == (if forall|k: IdentifierRef<R>| !borrowed_archetypes@.dom().contains(k) { old(next_stage).add_on_calls::<R, Resources>() } else { old(next_stage).add_on_calls::<R, Resources>().push((borrowed_archetypes@, resource_claims)) }),
+    {
+
+
+        if borrowed_archetypes.is_empty() {
+            VxNextStages::vx_new_has_run()
+        } else {
+
+            unsafe { next_stage.run_add_ons(world, borrowed_archetypes, resource_claims) }
         }
     
     }
